@@ -2,6 +2,7 @@
 from __future__ import annotations
 
 import copy
+import os
 import inspect
 import time
 import traceback
@@ -10,7 +11,7 @@ import types
 import z3
 
 from . import extract, seqops
-from .contract import Const, FixedList, Loop, MapOf, Obj, OneOf, Optional, Root, Same, SeqOf, Spec, SymDict, _Scalar
+from .contract import Const, Elem, Facade, FixedList, Link, OpaqueField, Loop, MapOf, Obj, OneOf, Optional, Region, Root, Same, SeqOf, Spec, SymDict, _Scalar
 from .core import Explorer, Infeasible, Path, PathEnd, PyRaise
 from .interp import Interp, OldNS
 from .interp_call import Frame
@@ -76,6 +77,49 @@ def make_symbolic(I: Interp, spec, hint, root=None, env=None):
             fields[f] = (fs.kind, z3.Array(f"{name}.{f}", z3.IntSort(), sort_of(fs.kind)))
         path.ex.inputs[name + ".dom"] = {"kind": "map", "dom": dom, "fields": fields}
         return path.alloc(MapCell("int", "ref", dom, None, spec.cls, fields))
+    if isinstance(spec, Region):
+        from .values import MapCell
+        regions = path.ghost.setdefault("regions", {})
+        if id(spec) in regions:
+            return regions[id(spec)]
+        name = "in:region:" + spec.name
+        n = z3.Int(name + ".n")
+        path.assume(n >= 1)
+        k = z3.Int("k!dom")
+        dom = z3.Lambda([k], z3.And(k >= 0, k < n))
+        fields = {}
+        for f, fs in spec.fields.items():
+            if isinstance(fs, _Scalar):
+                fields[f] = (fs.kind, z3.Array(f"{name}.{f}", z3.IntSort(), sort_of(fs.kind)))
+            elif isinstance(fs, Link):
+                fields[f] = ("link", z3.Array(f"{name}.{f}", z3.IntSort(), z3.IntSort()))
+            elif isinstance(fs, Facade):
+                fields[f] = ("facade", (fs.cls, fs.back))
+            elif isinstance(fs, OpaqueField):
+                fields[f] = ("opaque", fs.pytype)
+            else:
+                raise Unsupported("Region fields must be scalars, Link(), Facade(cls) or OpaqueField()")
+        path.ex.inputs[name + ".n"] = {"kind": "int", "term": n}
+        path.ex.inputs[name] = {"kind": "region", "n": n, "fields": {f: v for f, v in fields.items() if v[0] not in ("facade", "opaque")}}
+        ref = path.alloc(MapCell("int", "ref", dom, None, spec.cls, fields, n=n, rname=spec.name))
+        from .values import reach_definition
+        for f, (kind, arr) in fields.items():
+            if kind == "link":
+                path.assume(reach_definition(spec.name, f, arr))
+        regions[id(spec)] = ref
+        return ref
+    if isinstance(spec, Elem):
+        from .values import MapElem
+        rref = make_symbolic(I, spec.region, hint, root, env)
+        if spec.optional:
+            b = z3.Bool(f"in:{hint}.is_none")
+            path.ex.inputs[f"in:{hint}.is_none"] = {"kind": "bool", "term": b}
+            if I.branch(Sym("bool", b)):
+                return None
+        key = z3.Int(f"in:{hint}.key")
+        path.ex.inputs[f"in:{hint}.key"] = {"kind": "int", "term": key}
+        path.assume(z3.And(key >= 0, key < path.cell(rref).n))
+        return MapElem(rref, key)
     if isinstance(spec, OneOf):
         for n, alt in enumerate(spec.alternatives[:-1]):
             b = z3.Bool(f"in:{hint}.alt{n}")
@@ -168,6 +212,36 @@ def make_concrete(spec, hint, model):
         return items if spec.kind == "list" else tuple(items)
     if isinstance(spec, dict):
         return {k: make_concrete(s, f"{hint}[{k!r}]", model) for k, s in spec.items()}
+    if isinstance(spec, Region):
+        cache = model.setdefault("__regions__", {})
+        if spec.name in cache:
+            return cache[spec.name]
+        m = model.get("in:region:" + spec.name) or {"n": model.get(f"in:region:{spec.name}.n", 1), "objects": []}
+        n = max(1, min(int(m["n"]), 64))
+        objs = [object.__new__(spec.cls) for _ in range(n)]
+        for k, o in enumerate(objs):
+            vals = m["objects"][k] if k < len(m["objects"]) else {}
+            for f, fs in spec.fields.items():
+                if isinstance(fs, Link):
+                    t = vals.get(f, -1)
+                    v = objs[t] if isinstance(t, int) and 0 <= t < n else None
+                elif isinstance(fs, Facade):
+                    v = object.__new__(fs.cls)
+                    object.__setattr__(v, fs.back, o)
+                elif isinstance(fs, OpaqueField):
+                    v = f"{spec.name}#{k}" if fs.pytype is str else fs.pytype()
+                else:
+                    v = vals.get(f, 0 if fs.kind == "int" else False)
+                object.__setattr__(o, f, v)
+            object.__setattr__(o, "g_region", objs)     # native reading of region_of(): the list of all objects of the region
+        cache[spec.name] = objs
+        return objs
+    if isinstance(spec, Elem):
+        objs = make_concrete(spec.region, hint, model)
+        if spec.optional and model.get(f"in:{hint}.is_none"):
+            return None
+        k = model.get(f"in:{hint}.key", 0)
+        return objs[k] if isinstance(k, int) and 0 <= k < len(objs) else objs[0]
     raise Unsupported(f"input spec {spec!r}")
 
 
@@ -302,6 +376,8 @@ def _run_unit(ccls, case_name, case, res, goal_rlimit):
     subs = _callee_substitutions(ccls)
     codec_tables = getattr(ccls, "codec_tables", None)
     canary_done = [False]
+    # contracts with quantified hypotheses of their own (lemmas, region invariants) ask for a vacuity canary on EVERY path
+    every_path_canary = getattr(ccls, "canary", "") == "every-path" or bool(os.environ.get("VERIF_CANARY_ALL"))
     params = [p.arg for p in info.node.args.posonlyargs + info.node.args.args]
     label = f"{ccls.prop}/{ccls.target}[{case_name}]"
 
@@ -370,6 +446,15 @@ def _run_unit(ccls, case_name, case, res, goal_rlimit):
                 path.oblige(f"{label}/no-unexpected-exception.{value.cls.__name__}", z3.BoolVal(False), assume_after=False)
             else:
                 path.oblige(f"{label}/raises.{declared[0].__name__}.only-when", raise_conds[declared[0]], assume_after=False)
+                # what must hold when the function raises ("... raises and changes nothing"): unchanged_when_raised(self, old, ...)
+                for name, f in contract_functions(ccls, "when_raised"):
+                    v = I.spec_call(f, bind_by_name(f, dict(ns, exc=value)))
+                    cell = path.cell(v) if isinstance(v, Ref) else None
+                    for cname, c in (cell.d.items() if isinstance(cell, DictCell) else [(name, v)]):
+                        t = I.truthy(c)
+                        path.oblige(f"{label}/when-raised.{declared[0].__name__}.{cname}", z3.BoolVal(t) if isinstance(t, bool) else t, assume_after=False)
+                if every_path_canary:
+                    path.oblige(f"{label}/canary", z3.BoolVal(False), assume_after=False, kind="canary")
             return
         for k, c in raise_conds.items():
             path.oblige(f"{label}/raises.{k.__name__}.whenever", z3.Not(c), assume_after=False)
@@ -386,7 +471,7 @@ def _run_unit(ccls, case_name, case, res, goal_rlimit):
                 t = I.truthy(v)
                 for n, conj in enumerate(_conjuncts(z3.BoolVal(t) if isinstance(t, bool) else t)):
                     path.oblige(f"{label}/{name}" + (f".{n}" if n else ""), conj, assume_after=False)
-        if not canary_done[0]:
+        if not canary_done[0] or every_path_canary:
             canary_done[0] = True
             path.oblige(f"{label}/canary", z3.BoolVal(False), assume_after=False, kind="canary")
 
@@ -396,7 +481,9 @@ def _run_unit(ccls, case_name, case, res, goal_rlimit):
     res.solver_seconds = ex.solver_seconds
     for ob in ex.obligations:
         if ob.kind == "canary":
-            res.canary = ob.verdict
+            if res.canary != "discharged":      # one vacuous path is enough to distrust the unit
+                res.canary = ob.verdict
+            res.canaries = getattr(res, "canaries", 0) + 1
             continue
         res.obligations.append({
             "name": ob.name, "verdict": ob.verdict, "backend": ob.solver, "seconds": round(ob.seconds, 4),
@@ -498,6 +585,13 @@ def replay(ccls, case, model):
             failed.append(f"unexpected exception {type(value).__name__}: {value}")
         elif not raise_conds[declared[0]]:
             failed.append(f"raised {type(value).__name__} although its raising condition is false: {value}")
+        else:
+            for name, f in contract_functions(ccls, "when_raised"):
+                r = f(*bind_by_name(f, dict(ns, exc=value)))
+                if isinstance(r, dict):
+                    failed.extend(f"when-raised.{name}.{k}" for k, c in r.items() if not c)
+                elif not r:
+                    failed.append(f"when-raised.{name}")
     else:
         for k, c in raise_conds.items():
             if c:
